@@ -1,9 +1,11 @@
 import LinOp.Core.Parse
 import LinOp.C13.Model
+import LinOp.C13.Sites
 import LinOp.Generated.C13Table
 import LinOp.Generated.C13PTable
 /-! Line-protocol driver: `<R|P> <function id>` → the result of the Lean abstract interpreter on the
-generated IR of that function (ok flag, mutated formals, formals the result may alias). -/
+generated IR of that function (ok flag, mutated formals, formals the result may alias);
+`W <function id>` → number of write / mutating-call operations (`countW`) of the emitted IR of that function. -/
 open LinOp LinOp.C13 LinOp.Parse
 
 def sortNat (l : List Nat) : List Nat := (l.toArray.qsort (· < ·)).toList.eraseDups
@@ -19,6 +21,11 @@ def stepLine (s : Unit) (line : String) : Unit × String :=
   match words line with
   | ["R", i] => (s, match i.toNat? with | some i => runOne Generated.C13.sigma Generated.C13.table i | none => "bad")
   | ["P", i] => (s, match i.toNat? with | some i => runOne Generated.C13P.sigma Generated.C13P.table i | none => "bad")
+  | ["W", i] => (s, match i.toNat? with
+      | some i => (match Generated.C13.table[i]? with
+        | some fn => s!"countW={countW Generated.C13.sigma fn.body}"
+        | none => "no-such-function")
+      | none => "bad")
   | _ => (s, "bad-op")
 
 def main : IO Unit := do
